@@ -120,6 +120,7 @@ class Observer:
         self.snaps = []        # snapshot after every completed primitive
         self.gens = []
         self.other = []        # any other mutating call seen
+        self.prompts = []      # every interactive conflict prompt: (source, destination, did the destination exist?)
         self._saved = {}
 
     def _rel(self, p):
@@ -181,6 +182,13 @@ class Observer:
                     raise
             return generate
 
+        import tempren.cli as cli_mod
+        self._saved["prompt"] = cli_mod.cli_prompt_conflict_resolver
+
+        def prompt(source_path, destination_path):
+            obs.prompts.append([str(source_path), str(destination_path), os.path.lexists(destination_path)])
+            return obs._saved["prompt"](source_path, destination_path)
+        cli_mod.cli_prompt_conflict_resolver = prompt
         os.rename, os.mkdir = rename, mkdir
         for n in ("replace", "unlink", "remove", "rmdir", "symlink", "link"):
             setattr(os, n, other(n))
@@ -195,6 +203,8 @@ class Observer:
             setattr(os, n, self._saved[n])
         g.TemplateNameGenerator.generate = self._saved["name_gen"]
         g.TemplatePathGenerator.generate = self._saved["path_gen"]
+        import tempren.cli as cli_mod
+        cli_mod.cli_prompt_conflict_resolver = self._saved["prompt"]
 
 
 def spec_from_json(spec):
@@ -226,6 +236,7 @@ def observe(case, dry_override=None):
             shutil.rmtree(os.path.dirname(table), ignore_errors=True)
         return {
             "rc": rc, "events": [list(e) for e in common.parse_events(out)], "ops": obs.ops, "other": obs.other,
+            "prompts": obs.prompts,
             "gens": obs.gens, "before": _snap_json(before), "after": _snap_json(after),
             "snaps": [_snap_json(s) for s in obs.snaps], "err": err.strip()[-300:] if rc else "",
             "considered": next((l.split(" ")[0] for l in out.split("\n") if "considered for renaming" in l), "?"),
